@@ -521,12 +521,17 @@ def binop(it, op, a, b, inplace=False):
     # lists
     if name == 'Add' and isinstance(a, (PyList, SymList)) and isinstance(b, (PyList, SymList)):
         if isinstance(a, SymList) or isinstance(b, SymList):
-            if isinstance(b, PyList):
+            if isinstance(b, PyList) and isinstance(a, SymList):
                 if inplace:
                     a.items.extend(b.items)
                     return a
                 return SymList(a.prefix, a.items + b.items)
-            raise Unsupported('list + symbolic list')
+            # concatenation with a list of unknown contents: unknown contents
+            r = havoc_list(it, 'concat', a)
+            if inplace and isinstance(a, SymList):
+                a.prefix, a.items = r.prefix, []
+                return a
+            return r
         if inplace:
             a.items.extend(b.items)
             return a
@@ -596,10 +601,28 @@ def binop(it, op, a, b, inplace=False):
     raise Unsupported('binop %s on %r, %r' % (name, a, b))
 
 
+class BytesV:
+    """a bytes literal (opaque constant)"""
+
+    def __init__(self, b):
+        self.b = b
+        self.oid = new_oid()
+
+
+OPAQUE_EQ = z3.Function('opaque_eq', IntS, IntS, BoolS)
+
+
 def values_equal(it, a, b):
     """python bool or z3 Bool for a == b"""
     if a is b and not isinstance(a, float):
         return True
+    if isinstance(a, BytesV) and isinstance(b, BytesV):
+        return a.b == b.b
+    for x, y in ((a, b), (b, a)):
+        if isinstance(x, Opaque) and x.kind in ('result', 'item', 'dictval', 'listelem') and not isinstance(y, Opaque):
+            # value returned by an unmodelled call compared with something: unknown but fixed
+            yid = y.oid if hasattr(y, 'oid') else (hash(repr(y)) % (2 ** 31))
+            return OPAQUE_EQ(z3.IntVal(x.oid), z3.IntVal(yid))
     if isinstance(a, (PyList, tuple)) and isinstance(b, (PyList, tuple)):
         if type(a) is not type(b) and not (isinstance(a, tuple) and isinstance(b, tuple)):
             return False
@@ -984,6 +1007,12 @@ def getitem(it, obj, key):
             return obj.items[key]
         if not obj.items and getattr(obj.prefix, 'at', None) is not None:
             return obj.prefix.at(it, key)
+        if isinstance(key, slice):
+            return havoc_list(it, 'slice', obj)
+        if getattr(obj.prefix, 'mk_elem', None) is not None and obj.prefix.name.startswith('hv_'):
+            # some element of a list whose contents are unknown (IndexError if empty is out of model: assumption)
+            it.assumptions.add('indexing a list with unknown contents yields an arbitrary element (IndexError not modelled)')
+            return obj.prefix.mk_elem(it)[0]
         raise Unsupported('index into symbolic list')
     if isinstance(obj, Tree):
         return tree_get(it, obj, key, strict=True)
@@ -1403,6 +1432,12 @@ def _list_pop(it, l, idx=-1):
     return l.items.pop(norm_index(it, idx, len(l.items)) if isinstance(l, PyList) else idx)
 
 
+def _list_clear(it, l):
+    l.items.clear()
+    if isinstance(l, SymList):
+        l.prefix = None
+
+
 def _list_index(it, l, x):
     for i, v in enumerate(l.items):
         r = values_equal(it, v, x)
@@ -1418,7 +1453,7 @@ def _list_remove(it, l, x):
 
 LIST_METHODS = {'append': _list_append, 'extend': _list_extend, 'pop': _list_pop, 'index': _list_index,
                 'remove': _list_remove,
-                'clear': lambda it, l: l.items.clear() if not getattr(l, 'prefix', None) else _unsup('clear of symbolic list'),
+                'clear': lambda it, l: _list_clear(it, l),
                 'copy': lambda it, l: PyList(l.items) if isinstance(l, PyList) else SymList(l.prefix, l.items),
                 'insert': lambda it, l, i, v: l.items.insert(i, v) if isinstance(l, PyList) and isinstance(i, int) else _unsup('insert')}
 
@@ -1737,7 +1772,7 @@ def call_opaque(it, obj, method, args, kwargs):
         return h(it, obj, list(args), dict(kwargs))
     res = Opaque('result', '%s.%s()' % (obj.name, method))
     it.emit(Ev('Call', target=obj, method=method, args=tuple(snap(it, a) for a in args),
-               kwargs={k: snap(it, v) for k, v in kwargs.items()}, result=res))
+               kwargs={k: snap(it, v) for k, v in kwargs.items()}, result=res, objs=tuple(args)))
     return res
 
 
@@ -1751,7 +1786,7 @@ def external_attr(it, mod, name):
 def _extfn_call(it, obj, args, kwargs):
     res = Opaque('result', '%s()' % obj.name)
     it.emit(Ev('Call', target=obj, method='__call__', args=tuple(snap(it, a) for a in args),
-               kwargs={k: snap(it, v) for k, v in kwargs.items()}, result=res))
+               kwargs={k: snap(it, v) for k, v in kwargs.items()}, result=res, objs=tuple(args)))
     return res
 
 
@@ -1939,7 +1974,10 @@ ELEM_ITEM = z3.Function('elem_item', IntS, StrS, Cell)
 
 
 def _listelem_getitem(it, obj, key):
-    return it.uncell(ELEM_ITEM(obj.term, term(key, StrS)))
+    if isinstance(key, str) or (isinstance(key, SV) and key.t.sort().eq(StrS)):
+        return it.uncell(ELEM_ITEM(obj.term, term(key, StrS)))
+    f = z3.Function('elem_index', IntS, Cell, Cell)
+    return it.uncell(f(obj.term, it.cell_of(key)))
 
 
 OPAQUE_KINDS['listelem'] = {'__getitem__': _listelem_getitem}
@@ -2551,7 +2589,16 @@ class MappedStream(Obj):
         self.fn, self.stream = fn, stream
 
 
+def _b_open(it, path, mode='r', *a, **k):
+    f = Opaque('file', 'file(%s)' % (path,))
+    f.attrs['path'] = path
+    f.attrs['mode'] = mode
+    it.emit(Ev('Call', target='open', method='__call__', args=(snap(it, path), mode), kwargs={}, result=f, objs=(path, mode)))
+    return f
+
+
 BUILTINS = {
+    'open': _b_open,
     'len': _b_len, 'isinstance': _b_isinstance, 'callable': _b_callable, 'dict': _b_dict, 'list': _b_list,
     'tuple': _b_tuple, 'set': _b_set, 'any': _b_any, 'all': _b_all, 'enumerate': _b_enumerate, 'zip': _b_zip,
     'str': _b_str, 'int': _b_int, 'bool': _b_bool, 'range': _b_range, 'print': _b_print, 'hasattr': _b_hasattr,
